@@ -490,11 +490,8 @@ def run(ctx):
     for p in pairs:
         cfgs.append({'kinds': p, 'm': 2, 'n': 3 if not q else 2, 'seed': seed})
     depth = 5 if q else 7
-    total = 0
-    for cfg in cfgs:
-        if len(cfg['kinds']) == 2 and cfg['n'] > 2 and q:
-            continue
-        total += ctx.bfs('hist', cfg, depth, max_states=4000)
+    total = ctx.bfs_multi('hist', [(cfg, depth) for cfg in cfgs
+                                   if not (len(cfg['kinds']) == 2 and cfg['n'] > 2 and q)], max_states=4000)
     # tamper neighbourhood of every fully signed configuration
     tcases = []
     for cfg in cfgs:
